@@ -450,8 +450,12 @@ func (c *Core) registrationRequest(ranID int64, plain []byte) {
 	if err != nil {
 		c.viol("suci.decode", "%v", err)
 	} else {
-		if s.MCC != cfg.MCC || s.MNC != cfg.MNC {
-			c.viol("suci.plmn", "SUCI home network %s/%s, configured %s/%s", s.MCC, s.MNC, cfg.MCC, cfg.MNC)
+		want, ok := c.subscriber(ord)
+		if !ok {
+			panic("scenario population exhausts the MSIN digits")
+		}
+		if hm, hn := c.homePLMN(want); s.MCC != hm || s.MNC != hn {
+			c.viol("suci.plmn", "SUCI home network %s/%s, the subscriber's is %s/%s", s.MCC, s.MNC, hm, hn)
 		}
 		if s.Scheme != 0 || s.KeyID != 0 {
 			c.viol("suci.scheme", "protection scheme %d key %d, expected null scheme", s.Scheme, s.KeyID)
@@ -459,10 +463,6 @@ func (c *Core) registrationRequest(ranID int64, plain []byte) {
 		ue.SUPI = s.MCC + s.MNC + s.MSIN
 		c.cur.Info["supi"] = ue.SUPI
 		c.cur.Info["ran_ue_ngap_id"] = ranID
-		want, ok := supiOf(cfg.IMSI, ord)
-		if !ok {
-			panic("scenario population exhausts the MSIN digits")
-		}
 		if prev := c.bySUPI[ue.SUPI]; prev != nil {
 			c.viol("ident.supi-reused", "UE #%d registers with SUPI %s already used by UE #%d", ord, ue.SUPI, prev.Ordinal)
 		} else {
@@ -477,7 +477,7 @@ func (c *Core) registrationRequest(ranID int64, plain []byte) {
 		}
 	}
 	if ue.SUPI == "" {
-		ue.SUPI, _ = supiOf(cfg.IMSI, ord)
+		ue.SUPI, _ = c.subscriber(ord)
 	}
 	// security capability
 	sc := u.Get(0x2E)
@@ -548,6 +548,29 @@ func selectAlg(bits byte) byte {
 	return 0
 }
 
+// subscriber returns the SUPI digits the ord-th registering UE is provisioned with: initial IMSI +
+// ord, or the explicit list of the scenario (procedure-level runs with roaming subscribers).
+func (c *Core) subscriber(ord int) (string, bool) {
+	if subs := c.S.Subscribers; len(subs) > 0 {
+		if ord < len(subs) {
+			return subs[ord], true
+		}
+		return "", false
+	}
+	return supiOf(c.S.Config.IMSI, ord)
+}
+
+// homePLMN is the MCC/MNC the SUCI of subscriber supi must name. With an explicit subscriber
+// list a UE may be a roamer: its home network differs from the serving (configured) PLMN, and the
+// emulator is told the MNC length by the configured MNC.
+func (c *Core) homePLMN(supi string) (string, string) {
+	cfg := c.S.Config
+	if len(c.S.Subscribers) > 0 && len(supi) >= 3+len(cfg.MNC) {
+		return supi[:3], supi[3 : 3+len(cfg.MNC)]
+	}
+	return cfg.MCC, cfg.MNC
+}
+
 // supiOf returns the SUPI digits of the idx-th subscriber derived from the initial IMSI.
 func supiOf(imsi string, idx int) (string, bool) {
 	d := []byte(imsi)
@@ -561,6 +584,14 @@ func supiOf(imsi string, idx int) (string, bool) {
 }
 
 func (c *Core) subscriberIndex(supi string) (int, bool) {
+	if subs := c.S.Subscribers; len(subs) > 0 {
+		for i, x := range subs {
+			if x == supi {
+				return i, true
+			}
+		}
+		return 0, false
+	}
 	imsi := c.S.Config.IMSI
 	if len(supi) != len(imsi) {
 		return 0, false
@@ -1146,6 +1177,22 @@ func BuildAccept(p scn.UEParams, psi, pti byte, snssai []byte) nas.EstAccept {
 	r := kernel.New(uint64(p.QoSRuleLen)*7919 + uint64(p.AccOpt)).Sub("acc")
 	fill := func(n int) []byte {
 		b := r.Bytes(n)
+		switch p.Fill {
+		case 1:
+			dict := []byte{0x29, 0x59, 0x7B, 0x79, 0x22, 0x25, 0x56, 0x7E, 0x2E, 0x00, 0x01, 0x04, 0x05, 0x8B, 0xFF, 0x68, 0xC2}
+			for i := range b {
+				b[i] = dict[int(b[i])%len(dict)]
+			}
+		case 2:
+			for i := range b {
+				b[i] = 0x29
+			}
+		case 3:
+			decoy := []byte{0x29, 0x05, 0x01, 0x0A, 0x2D, 0x00, 0x63}
+			for i := range b {
+				b[i] = decoy[i%len(decoy)]
+			}
+		}
 		return b
 	}
 	lens := func(i, def int) int {
@@ -1161,6 +1208,9 @@ func BuildAccept(p scn.UEParams, psi, pti byte, snssai []byte) nas.EstAccept {
 	o := p.AccOpt
 	if o&(1<<0) != 0 {
 		v := byte(0x32)
+		if p.CauseVal != 0 {
+			v = byte(p.CauseVal)
+		}
 		a.Cause = &v
 	}
 	a.PDUAddress = append([]byte{0x01}, ip...)
@@ -1460,12 +1510,12 @@ func (c *Core) deregistration(ue *UE, u *nas.Uplink) {
 	c.cur.Label = "UplinkNASTransport/DeregistrationRequest"
 	c.requireRegistered(ue, "deregistration")
 	c.cur.Info["identity"] = hex.EncodeToString(u.Identity)
-	cfg := c.S.Config
 	if s, err := nas.DecodeSUCI(u.Identity); err != nil {
 		c.viol("suci.decode", "%v", err)
 	} else {
-		if s.MCC != cfg.MCC || s.MNC != cfg.MNC {
-			c.viol("suci.plmn", "SUCI home network %s/%s, configured %s/%s", s.MCC, s.MNC, cfg.MCC, cfg.MNC)
+		prov, _ := c.subscriber(ue.Ordinal)
+		if hm, hn := c.homePLMN(prov); s.MCC != hm || s.MNC != hn {
+			c.viol("suci.plmn", "SUCI home network %s/%s, the subscriber's is %s/%s", s.MCC, s.MNC, hm, hn)
 		}
 		if got := s.MCC + s.MNC + s.MSIN; got != ue.SUPI {
 			c.viol("suci.msin", "DEREGISTRATION REQUEST identifies %s, this context belongs to %s", got, ue.SUPI)
